@@ -245,6 +245,10 @@ extend("C08", "the write-back (cache.ResponseWriter.WriteMsg with every store as
 extend("C09", "the revocation store read: readTombstones reports 'nothing revoked' only for a missing file, 'corrupt' for every decode failure of an existing one (end-of-file at once included), an error for an unopenable one; and AutoTA fails closed for an unopenable store exactly as for a corrupt one.")
 extend("C12", "every transport attempt is debited first: in Resolver.exchange (dials and exchanges as counting stubs; retries, TCP fallback and exploration probes) the number of dials never exceeds the outbound debits the ledger accepted, and a spent budget means no dial and a request-local error.")
 extend("C18", "the reload model includes the root name as an entry.")
+# ---- round 3 batch c ----
+extend("C10", "the edns writer a UDP/TCP job slab owns: (*EDNS).serveWire run twice on one slot with two symbolic wire-born requests - the writer the second client's handlers see carries only the second request's cookie, flags and transport, no cached cookie text and no request OPT, and the idle slot holds no client reference.")
+extend("C15", "the selected OPT aliased by the same pointer in the answer or authority section is part of the quick tier as well.")
+extend("C16", "CompareAndSwap with the replacement drawn from {A, B, fresh C}, so swapping an entry for itself against an absent or different current value is covered.")
 
 NA_REASON = "no check registered yet: the solver-based harness for this property is still being built in this session (see DESIGN.md §5 for the plan)"
 def main():
